@@ -114,6 +114,7 @@ class Ctx:
             "violations": len(self.violations),
             "notes": list(self.notes),
         }
+        self.evidence_problems = evidence_problems(ev)
         os.makedirs(EVIDENCE_DIR, exist_ok=True)
         path = os.path.join(EVIDENCE_DIR, f"{self.pid}.json")
         tmp = path + ".tmp"
@@ -124,6 +125,27 @@ class Ctx:
 
     def cleanup(self):
         shutil.rmtree(self.scratch, ignore_errors=True)
+
+
+def evidence_problems(ev):
+    """the per-level requirements of EVIDENCE.schema.json, restated (jsonschema is not installed in /venv)"""
+    cov = ev["coverage"]
+    isint = lambda k, lo: isinstance(cov.get(k), int) and not isinstance(cov.get(k), bool) and cov[k] >= lo
+    generic = [k for k, lo in (("evaluations", 1), ("distinct_nontrivial", 2)) if not isint(k, lo)]
+    out = []
+    if not (isinstance(cov.get("samples"), list) and cov["samples"]):
+        out.append("coverage.samples")
+    if ev["level"] in ("exploration", "fault_enumeration"):
+        out += [f"coverage.{k}" for k in generic]
+        if not isinstance(cov.get("rule"), str):
+            out.append("coverage.rule")
+    elif ev["level"] == "model_checking":
+        own = all(k in cov for k in ("states", "transitions", "traces_validated_against_impl", "samples"))
+        if own:
+            out += [f"coverage.{k}" for k, lo in (("states", 1), ("transitions", 1), ("traces_validated_against_impl", 0)) if not isint(k, lo)]
+        else:
+            out += [f"coverage.{k}" for k in generic]
+    return out
 
 
 def trim(obj, n=3):
